@@ -296,6 +296,11 @@ func (c *Variant) SetAsObject(value any) {
 		v, _ := c.value.(*Variant)
 		c.typ = v.typ
 		c.value = v.value
+		if v1, ok := v.value.([]*Variant); ok {
+			v2 := make([]*Variant, len(v1))
+			copy(v2, v1)
+			c.value = v2
+		}
 	default:
 		c.typ = Object
 	}
